@@ -24,6 +24,12 @@ Decided:
          condition has the quality test of gzip, no previous encoding, not streamed and a size comparison that
          does not select the larger body.  Named temporaries, inlined predicate helpers (flag form) and
          module-level constants are looked through (diffcon.Locals, cfg flag expansion, repo.try_fold).
+  R15.e  header-backed (nullable) attributes of the next() result are tested before they are dereferenced (c15_nullable);
+  R15.f  an operation on the next() result that needs its body as a sequence (everything that reaches
+         BaseResponse._ensure_sequence in the pinned werkzeug source: get_data, .data, add_etag, freeze ...) sits where the
+         path condition, taken as a formula, entails ``not <result>.is_streamed`` (c15_paths);
+  R15.g  an exception of the middleware's own (explicit raise, ``request.args[k]``-style lookups) is dominated by its
+         trigger: a test on the request whose other side is a pure pass-through and under which its changes sit (c15_paths).
 Each middleware function and the gzip group run in isolation: a gap or internal error in one is reported as
 ANALYSIS-ERROR without hiding the violations of the others.
 Declined: losslessness of compression / equality of decoded bodies (values).
@@ -89,7 +95,8 @@ def is_next_call(v):
 def run(rep):
     repo = rep.repo
     rep.decide('R15.a attribute protocol on next() results; R15.b pass-through / guarded body mutation; '
-               'R15.c handlers re-raise; R15.d gzip bookkeeping; R15.e nullable header attributes are tested before use')
+               'R15.c handlers re-raise; R15.d gzip bookkeeping; R15.e nullable header attributes are tested before use; '
+               'R15.f body-as-sequence operations only where not streamed is entailed; R15.g own exceptions only under the trigger')
     rep.decline('losslessness of gzip, equality of decoded bodies (values)')
     rep.assume('werkzeug 1.0.1 class layout as parsed from site-packages/werkzeug/wrappers')
     rep.assume('HTTPException(BaseResponse, Exception) instances flow through request middlewares (null route, raised/returned errors)')
@@ -133,7 +140,19 @@ def run(rep):
     rep.rule('R15.e', 'header-backed (nullable) attributes of the next() result are not dereferenced without a presence test')
     from .c15_nullable import check_nullable_derefs
     _guarded(rep, check_nullable_derefs, rep, 'R15.e')
-    for rule, n in (('R15.a', 9), ('R15.b', 9), ('R15.c', 3), ('R15.d', 8)):
+    from . import c15_paths
+    rep.rule('R15.f', "operations needing the body of the next() result as a sequence are entailed 'not streamed' by their path condition")
+    rep.rule('R15.g', 'own exceptions (raise / raising lookups on request data) are dominated by the trigger of the middleware')
+    rep.assume("werkzeug request containers (%s): [key] raises (BadRequest)KeyError for an absent key" % ', '.join(sorted(c15_paths.RAISING_LOOKUPS)))
+    seq_attrs = _guarded(rep, c15_paths.body_sequence_attrs, repo, resp)
+    if seq_attrs:
+        rep.extra['body_sequence_attrs'] = sorted(seq_attrs)
+    for fi in sorted(funcs, key=lambda f: f.key):
+        nd = next_derived(fi)
+        if seq_attrs:
+            _guarded(rep, c15_paths.check_body_reads, rep, 'R15.f', fi, seq_attrs, nd)
+        _guarded(rep, c15_paths.check_own_exceptions, rep, 'R15.g', fi, nd, BODY_ATTRS, BODY_CALLS)
+    for rule, n in (('R15.a', 9), ('R15.b', 9), ('R15.c', 3), ('R15.d', 8), ('R15.f', 6), ('R15.g', 6)):
         rep.guard(rep.floor, rule, n)
 
 
